@@ -309,7 +309,11 @@ def search(tier, seed):
         if r["problem_case"]:
             cases.append(r["problem_case"])
             meta.append(key)
-    bad = run_cases("c14s", IMPORTS, RUN, cases, shard=40, input_type=INPUT_TYPE)
+    try:
+        bad = run_cases("c14s", IMPORTS, RUN, cases, shard=40, input_type=INPUT_TYPE)
+    except Exception:
+        bad = []          # the model itself does not build (e.g. the generated plan is missing): go on with the
+        #                   implementation-only searches below
     if bad:
         return dict(kind="scripted-case-differs-from-model", **meta[bad[0]])
     for i, spec in enumerate(L.solvable_specs(rng, 6 if tier == "quick" else 40, asym_every=0)):
@@ -320,6 +324,21 @@ def search(tier, seed):
             return dict(kind="solve-raised", solved_spec=spec, heuristic=h, error=repr(e)[:300])
         if kinds:
             return dict(kind=kinds[0], solved_spec=spec, heuristic=h, measured=info)
+    # badly scaled models solved with the heuristics: the returned instance must be the solver's and satisfy every
+    # constraint (shared with C02: harness/solvelib.py real_badscale / check_instance)
+    try:
+        from . import solvelib as S
+        probs, stats = [], {}
+        for idx in range(8):
+            p, hh = S.real_badscale(idx)
+            S.check_instance(p, hh, "badscale-%d" % idx, probs, stats)
+            if probs:
+                pr = dict(probs[0])
+                pr.setdefault("kind", "instance-after-heuristic-violates-the-model")
+                pr["badscale_model"] = idx
+                return pr
+    except Exception as e:
+        return dict(kind="solve-raised", badscale_model=True, error=repr(e)[:300])
     return None
 
 
@@ -332,6 +351,15 @@ def is_known(payload, known):
 
 
 def replay(payload):
+    if "badscale_model" in payload:
+        from . import solvelib as S
+        probs = []
+        try:
+            p, hh = S.real_badscale(int(payload["badscale_model"]))
+            S.check_instance(p, hh, "replay", probs, {})
+        except Exception:
+            return True
+        return bool(probs)
     if "spec" in payload:
         try:
             r = run_case(payload["spec"], payload.get("heuristic"), payload.get("mode", "dual"), payload.get("unbounded", False))
